@@ -318,6 +318,64 @@ def suite_limit(tier, seed):
     return cached_suite('limit', tier, seed, compute)
 
 
+def growth_scripts(path, n, N, dynamic_limit=None):
+    """append-only executions from several starting states (python only writes labels; TLC judges the recording)"""
+    def L(op, n_=0, v=0):
+        return '%s 1 0 0 %d %d 0 - 0 0\n' % (op, n_, v)
+    with open(path, 'w') as f:
+        starts = [[L('ctorDefault')], [L('ctorCountVal', max(N - 1, 0), 1)], [L('ctorDefault'), L('reserve', 10)],
+                  [L('ctorCountVal', N + 5, 1), L('shrinkToFit')], [L('ctorCountVal', 1, 1), L('shrinkToFit')]]
+        for i, st in enumerate(starts):
+            for ln in st:
+                f.write(ln)
+            ops = ['pushBack', 'emplaceBack', 'pushBackRv']
+            for k in range(n):
+                f.write(L(ops[i % 3], 0, 1))
+            f.write(L('reserve', min(n + 50, dynamic_limit or (n + 50))))
+            f.write(L('shrinkToFit'))
+            f.write('reset\n')
+
+
+def growth_configs(tier):
+    q = [
+        ('g_v_TC_amcled', 'TC', 'amcled', [('vector', 0, 'u32')]),
+        ('g_v_NTR_stdlike', 'NTR', 'stdlike', [('vector', 0, 'u32')]),
+        ('g_s3_TR_withrealloc', 'TR', 'withrealloc', [('small', 3, 'u32')]),
+        ('g_s2_NTR_amcled_u16', 'NTR', 'amcled', [('small', 2, 'u16')]),
+    ]
+    t = [
+        ('g_v_TR_amcled_u64', 'TR', 'amcled', [('vector', 0, 'u64')]),
+        ('g_s1_TC_stdlike', 'TC', 'stdlike', [('small', 1, 'u32')]),
+        ('g_s4_NTR_stdlike', 'NTR', 'stdlike', [('small', 4, 'u32')]),
+    ]
+    lst = q + (t if tier == 'thorough' else [])
+    return [ImplCfg(n, e, a, s) for n, e, a, s in lst]
+
+
+def suite_growth(tier, seed):
+    def compute(d):
+        # the design model: TLC checks the reallocation bound for every n up to 2000 from every starting state
+        md = workdir(d, 'mc_growth')
+        vlib.copy_specs(md)
+        rc, out, dt = vlib.tlc(md, 'Growth', 'Growth.cfg', workers=8, timeout=900, heap='6g')
+        counts = vlib.parse_counts(out)
+        if rc != 0 or counts is None or 'No error has been found' not in out:
+            raise InfraError('MODEL-ERROR: Growth model failed\n' + out[-2000:])
+        n = 300 if tier == 'quick' else 1500
+
+        def one(cfg):
+            N = cfg.slots[0][1]['n']
+            script = os.path.join(d, 'growth_%s.script' % cfg.name)
+            growth_scripts(script, n, N)
+            r = run_cfg_script(d, cfg, script, 'growth', batch=1)
+            r['kind'] = 'growth'
+            r['growth_n'] = n
+            return r
+        rs = pmap(one, growth_configs(tier), workers=8)
+        return dict(results=rs, growth_model=dict(states=counts[1], generated=counts[0], wall=dt))
+    return cached_suite('growth', tier, seed, compute)
+
+
 def suite_fault(tier, seed):
     def compute(d):
         cfgs = fault_configs(tier)
@@ -351,7 +409,7 @@ def suite_fault(tier, seed):
 # ------------------------------------------------------------------------------------------------------------------
 VEC_PROPS = {'C01', 'C02', 'C05', 'C06', 'C07', 'C10'}
 
-RELEVANT_STAT = {'C08': 'limitExc', 'C13': 'ops', 'C14': 'ops', 'C09': 'faults', 'C01': 'ops', 'C02': 'prims', 'C05': 'pristineOps', 'C06': 'allocEvents', 'C07': 'stable', 'C10': 'alias'}
+RELEVANT_STAT = {'C18': 'ops', 'C08': 'limitExc', 'C13': 'ops', 'C14': 'ops', 'C09': 'faults', 'C01': 'ops', 'C02': 'prims', 'C05': 'pristineOps', 'C06': 'allocEvents', 'C07': 'stable', 'C10': 'alias'}
 
 
 def make_replay(prop, r, v):
@@ -416,8 +474,14 @@ def evidence_vec(prop, res, extra_notes=None):
 
 
 def run_property(prop, tier, seed):
-    if prop in VEC_PROPS or prop in ('C08', 'C09', 'C13', 'C14'):
+    if prop in VEC_PROPS or prop in ('C08', 'C09', 'C13', 'C14', 'C18'):
         res = suite_vec(tier, seed) if prop not in ('C08', 'C09', 'C13') else dict(results=[], wall=0, cached=True)
+        gm = None
+        if prop == 'C18':
+            gr = suite_growth(tier, seed)
+            gm = gr['growth_model']
+            res = dict(results=res['results'] + gr['results'], wall=res.get('wall', 0) + gr.get('wall', 0),
+                       cached=res.get('cached') and gr.get('cached'))
         if prop == 'C08':
             lr = suite_limit(tier, seed)
             res = dict(results=res['results'] + lr['results'], wall=res.get('wall', 0) + lr.get('wall', 0),
@@ -432,6 +496,10 @@ def run_property(prop, tier, seed):
                        cached=res.get('cached') and fr.get('cached'))
         viols, merr = collect(prop, res['results'])
         ev = evidence_vec(prop, res)
+        if gm:
+            ev['coverage']['states'] += gm['states']
+            ev['coverage']['transitions'] += gm['generated']
+            ev['coverage']['growth_model'] = gm
         if prop == 'C09':
             ev['level'] = 'fault_enumeration'
             nf = sum(r['stats'].get('faults', 0) for r in res['results'])
